@@ -963,8 +963,12 @@ class SC:
             if op == "!=":
                 f = f_not(f)
             return mk_bool(f)
-        # ordering: numpy compares complex lexicographically; the library only orders reals
-        return mk_bool(f_cmp(self.re - o.re, op))
+        # ordering: numpy / JAX compare complex numbers lexicographically (real part first, imaginary part on a tie)
+        dre, dim = self.re - o.re, self.im - o.im
+        if not dim.t:
+            return mk_bool(f_cmp(dre, op))
+        strict = ">" if op in (">", ">=") else "<"
+        return mk_bool(f_or(f_cmp(dre, strict), f_and(f_cmp(dre, "=="), f_cmp(dim, op))))
 
     def __eq__(self, o):
         return self._cmp(o, "==")
